@@ -656,6 +656,9 @@ class BaseCartesianData(BaseData, metaclass=abc.ABCMeta):
 
         self._externally_derivable_components = derivable_components
 
+        # masks cached for states that use linked attributes are no longer valid
+        clear_mask_caches()
+
         if self.hub:
             msg = ExternallyDerivableComponentsChangedMessage(self)
             self.hub.broadcast(msg)
@@ -695,6 +698,10 @@ class BaseCartesianData(BaseData, metaclass=abc.ABCMeta):
                 return
 
         self._pixel_aligned_data = pixel_aligned_data
+
+        # masks cached for slice-based states on aligned datasets are no longer valid
+        clear_mask_caches()
+
         if self.hub:
             msg = PixelAlignedDataChangedMessage(self)
             self.hub.broadcast(msg)
